@@ -232,6 +232,16 @@ def run_first_order(case, ctx):
         res3 = np.linalg.norm(ned[1] - d[k])
         ctx.check(np.all(np.abs(ned[0]) <= 1e-8) and res3 <= tol[k], 'lla_to_ned',
                   lambda: f'ned={ned.tolist()} d={d[k].tolist()} tol={tol[k]:.3e}')
+        if mag == 10.0:
+            # default origin = first row; DataFrame in -> DataFrame out with the same values and index
+            both = np.vstack([pts[k], p2[k]])
+            dflt = ctx.sut(transform.lla_to_ned, both)
+            ctx.check(np.array_equal(dflt, ned), 'lla_to_ned_default_origin', lambda: f'{dflt} vs {ned}')
+            frame = pd.DataFrame(both, index=[10.0, 11.5], columns=['lat', 'lon', 'alt'])
+            frame['extra'] = 1.0
+            fr = ctx.sut(transform.lla_to_ned, frame)
+            ctx.check(isinstance(fr, pd.DataFrame) and list(fr.columns) == ['north', 'east', 'down'] and list(fr.index) == [10.0, 11.5]
+                      and np.array_equal(fr.values, ned), 'lla_to_ned_frame_form', lambda: f'{fr}')
         # curvature matrix: rotation of the NED frame under the displacement, altitude varied
         Fm = ctx.sut(earth.curvature_matrix, lat, alt)
         C2 = W.ned_axes(p2[:, 0], p2[:, 1])
